@@ -1233,7 +1233,7 @@ def run(chk):
     applied = replay_all(chk, jobs, 'tlc behaviours', partial, pristine_every=4)
     for layout, beh in jobs[len(jobs) // 2:len(jobs) // 2 + 1]:
         chk.sample({'layout': layout, 'behaviour': beh[-1:]})
-    n = 60 if quick else 600
+    n = 60 if quick else 1200
     applied = random_phase(chk, applied, 'AB', [chk.seed * 100003 + i for i in range(n)], 25 if quick else 40, 0.25)
     random_phase(chk, applied, 'A', [chk.seed * 100003 + 50000 + i for i in range(n // 3)], 25 if quick else 40, 0.25)
     chk.exhaustive = False
